@@ -164,7 +164,10 @@ impl StepMonitor for AssetMon {
         // the ledger's opening balances: inputs - coin outputs - max fee (+ retryable)
         match self.money.initial_free(true) {
             Some(want) => {
-                let got: Sums = first.balances.iter().map(|b| (b.0, b.1 as u128)).collect();
+                // an asset with a free balance of zero and an asset without an entry are the
+                // same thing (the VM keeps no empty base-asset entry since /repo 628b41f)
+                let got: Sums = first.balances.iter().map(|b| (b.0, b.1 as u128)).filter(|e| e.1 != 0).collect();
+                let want: Sums = want.into_iter().filter(|e| e.1 != 0).collect();
                 rep.count("initial_balances_checked");
                 if got != want {
                     rep.violation(
@@ -548,6 +551,7 @@ pub fn opts(idx: u64, rng: &mut Rng) -> ScenarioOpts {
         // every third scenario under non-standard parameters (non-zero base asset id:
         // fees, refunds and SMO must use the configured base asset, not AssetId::BASE)
         vary_params: if idx % 3 == 1 { 1000 } else { 0 },
+        no_base_input: if idx % 8 == 2 { 1000 } else { 0 },
         ..Default::default()
     }
 }
